@@ -96,6 +96,42 @@ def registered_variants(ctx):
     ctx.extra['registered_program_calls_on_storage_variants'] = n
 
 
+def irrational_variants(ctx):
+    """sqrt, x ** 0.5, norm, normalized and exp (decided by certificates, as in C19) on storage variants of their operands:
+    permutations, explicit zeros for extra blades of lower AND higher grade, full canonical / binary layouts."""
+    import os
+    import json
+    from drive_cert import run_jobs
+    from drive_ops import lookup_event
+    from opscheck import describe_cfg
+    q = ctx.quick
+    us = [ucfg(sig=s) for s in ([1, 1], [0, 1], [1, 1, 1], [1, 1, -1], [0, 1, 1], [1, 1, 1, -1], [0, 1, 1, 1])] + [named_ucfg('2DPGA')]
+    if not q:
+        us += [ucfg(sig=s) for s in ([1, -1], [-1, -1, -1], [1, 1, 1, 1, -1], [0, 1, 1, 1, 1])] + [named_ucfg('3DPGA')]
+    tdir = os.path.join(ctx.work, 'certvariants')
+    os.makedirs(tdir, exist_ok=True)
+    jobs = [{'u': u, 'n': 30 if q else 200, 'seed': ctx.seed + 77 * i, 'out': os.path.join(tdir, f'v{i}.ndjson'), 'prefix': f'v{i}', 'storage_variants': True,
+             'kinds': ['sqrt', 'sqrt', 'powhalf', 'norm', 'normalized', 'exp'], 'vtypes': ['float', 'int_over', 'sympy']} for i, u in enumerate(us)]
+    res = run_jobs(jobs)
+    files = [r['out'] for r in res if r['events']]
+    n = 0
+    for f, (eid, clause) in ctx.validate('TraceOps.tla', 'TraceOps.cfg', files):
+        header, ev = lookup_event(f, eid)
+        if clause.startswith('MACHINERY'):
+            from tlc import MachineryError
+            raise MachineryError(f'{eid}: {clause}')
+        ctx.report(f"{ev['cert']} ({ev['vtype']}) of a storage variant in {describe_cfg(header['u'])} x={ev['x'] if ev['cert'] != 'exp' else [ev['X'], '/', ev['g']]}: {clause}"
+                   + (f" (raised {ev['raised']})" if ev['raised'] else ''),
+                   {'kind': 'cert', 'cert': ev['cert'], 'clause': clause, 'vtype': ev['vtype'], 'raised': ev['raised']}, {'trace_header': header, 'event': ev, 'spec': 'TraceOps.tla'})
+    for f in files:
+        lines = list(open(f))
+        for line in lines[1:]:
+            ev = json.loads(line)
+            n += 1
+            ctx.nontrivial.add(('cert', lines[0], ev['cert'], ev['vtype'], json.dumps(ev['x']), json.dumps(ev['X'])))
+    ctx.extra['certificates_on_storage_variants'] = n
+
+
 def run(ctx):
     run_ref_mc(ctx)
     rng, q = ctx.rng, ctx.quick
@@ -127,10 +163,11 @@ def run(ctx):
             groups.append({'u': u, 'opts': {}, 'cases': cases})
     run_plan(ctx, groups, budget=60)
     registered_variants(ctx)
+    irrational_variants(ctx)
     ctx.extra['variants_note'] = 'every event of one base case carries the same blade-named indeterminates; agreement of all variants follows from agreement with the single reference value'
     return ctx.finish(
         rule='case = (configuration, operator, storage variant of each operand): permutations of the key tuple (all for <= 3 stored blades) '
              'and zero-padded supersets incl. full canonical and full binary layouts, for 30 operators (binary, unary, composite, '
              'inverse/division/outertan with rational results, outer series, grade, pow), and for functions compiled by alg.register (depth-1 forms of '
-             'the operator table and sampled depth-2 programs) applied to the same kinds of variants; non-trivial = non-zero result or certified raise',
+             'the operator table and sampled depth-2 programs) applied to the same kinds of variants; sqrt / x**0.5 / norm / normalized / exp by certificate on storage variants; non-trivial = non-zero result or certified raise',
         assumptions=['generated functions use only ring operations on their inputs', 'TLC, CommunityModules, JSON encoding, harness/generic.py'])
